@@ -125,10 +125,10 @@ def r2_fixed_ranges(ctx):
     kw = {k.arg: defuse.norm(inl0.inline(h, k.value)) for k in c.keywords}
     if kw.get('parameters', '').startswith(f'{tbl}[') and 'activation_tensor_config.num_bits' in kw.get('parameters', ''):
       okp = True
-  ctx.check(R, okp, h.node, h, 'fixed params applied to the output',
+  ctx.check(R + 'c', okp, h.node, h, 'fixed params applied to the output',
             'the output producer must receive the table entry of the activation width of the op config')
   st = [n for n in common.walk_no_nested(h.node) if isinstance(n, ast.Assign) and isinstance(n.targets[0], ast.Attribute) and n.targets[0].attr == 'producer']
-  ctx.check(R, len(st) == 1, h.node, h, 'producer replaced', 'the fixed parameters must replace the producer entry of the output tensor')
+  ctx.check(R + 'c', len(st) == 1, h.node, h, 'producer replaced', 'the fixed parameters must replace the producer entry of the output tensor')
 
 
 def r10_fixed_range_statistics(ctx, R='C04.R10'):
@@ -476,3 +476,4 @@ def run(ctx):
   from sa.rules import c05  # pylint: disable=g-import-not-at-top
   c05.r10_constant_carries_data(ctx, 'C04.R12')
   c05.r11_constant_numeric_table(ctx, 'C04.R13')
+  shared.rule_operator_sweep(ctx, 'C04.R14')
